@@ -1030,6 +1030,19 @@ func TestVerifC05mem(t *testing.T) {
 	s := vfutil.NewSession("C05mem")
 	defer s.Close()
 	d := &c05mem{s: s, r: vfutil.NewRand(vfutil.Seed() + 77)}
+	// whole-test watchdog: write the summary (with the last ops) and stop
+	limit := time.Duration(vfutil.Scale(150, 1500)) * time.Second
+	wd := time.AfterFunc(limit, func() {
+		tr := d.trace
+		if len(tr) > 40 {
+			tr = tr[len(tr)-40:]
+		}
+		s.Violate("harness-watchdog", fmt.Sprintf("the harness did not finish within %v", limit),
+			map[string]interface{}{"last_ops": strings.Join(tr, " ; ")})
+		s.Close()
+		os.Exit(3)
+	})
+	defer wd.Stop()
 
 	for _, l := range vfutil.Corpus("C05") {
 		if strings.HasPrefix(l, "mnew") {
